@@ -9,7 +9,7 @@
       exact geometry of the input floats → `propfail <clause>`.
   Clauses (C16): bitident, bitident-zero-sign, nonfinite, unit, acc, hemi, stable-accept,
                  collinear-point.
-  Clauses (C17): nonfinite, zero-endpoint, dist-err, dist-endpoint, thresh, thresh-max, interior-implies,
+  Clauses (C17): nonfinite, zero-endpoint, dist-err, dist-endpoint (known class D57: suffix -maxpointerror), thresh, thresh-max, interior-implies,
                  maxdist-err, angle-conv, project-circle, project-between, project-dist, interp-ends,
                  interp-mid, interp-frac, interp-frac-proj, ee-err, ee-thresh, ee-max-err, ee-closest-*,
                  pl-*.
@@ -234,8 +234,16 @@ def handlePedist (args res : List String) : String :=
           let cA := chord2 X A; let cB := chord2 X B
           let cMin := I.min cA cB
           let zeroEnd := clauseIf ((V3.feq x a || V3.feq x b) && !d.isZero) "zero-endpoint"
-          let distErr := clauseIf (!(withinI T D Eb)) "dist-err"
-          let distEnd := clauseIf (Q.lt (cMin.hi + Eb) D) "dist-endpoint"
+          -- KNOWN class D57: on the VERTEX branch the documented bound is `MaxPointError = 4.5 dblEpsilon d + 16 dblEpsilon^2`, whose
+          -- derivation budgets 2 dblEpsilon for the normalisation of BOTH points together; two outputs of `Normalize` that are both too
+          -- long by 2.8 * 2^-53 or more exceed it.  The bound with 6.5 in place of 4.5 is PROVED for the whole documented range of
+          -- `Normalize` (`S2Proofs.C17.vertex_case_wide`), so: outside `Eb` but inside `Eb + 2 dblEpsilon max(d, true) + 2^-100` on the
+          -- vertex branch = the known class (suffix `-maxpointerror`); anything beyond is reported as before.
+          let EbW := Eb + qPow2 51 * Q.max D T.hi + qPow2 100
+          let distErr := if withinI T D Eb then none
+                         else if !oki && withinI T D EbW then some "dist-err-maxpointerror" else some "dist-err"
+          let distEnd := if !(Q.lt (cMin.hi + Eb) D) then none
+                         else if !oki && !(Q.lt (cMin.hi + EbW) D) then some "dist-endpoint-maxpointerror" else some "dist-endpoint"
           -- threshold forms: compare with the computed distance d
           -- (`thresh` : the disagreement is larger than the documented error bound;
           --  `thresh-within-bound` : literal disagreement, but |d − m| or |d − returned value| ≤ bound)
